@@ -2,6 +2,9 @@
 #include <occa/core/device.hpp>
 #include <occa/internal/core/device.hpp>
 #include <occa/internal/core/stream.hpp>
+#ifdef LIBOCCA_OCCA_VERIF
+#  include <occa/internal/utils/verif.hpp>
+#endif
 
 namespace occa {
   stream::stream() :
@@ -41,6 +44,9 @@ namespace occa {
       return;
     }
     modeStream->removeStreamRef(this);
+#ifdef LIBOCCA_OCCA_VERIF
+    occa::verif::yieldPoint(occa::verif::yStreamRemoveRef);
+#endif
     if (modeStream->modeStream_t::needsFree()) {
       free();
     }
